@@ -31,3 +31,20 @@ func (k Keeper) RemoveValidatorUpdateBlock(ctx sdk.Context) {
 	store := prefix.NewStore(ctx.KVStore(k.storeKey), types.KeyPrefix(types.ValidatorUpdateBlockKey))
 	store.Delete(types.BlockKey)
 }
+
+// SetForceSealBlock records that the EndBlock of the current block force-sealed every open round.
+func (k Keeper) SetForceSealBlock(ctx sdk.Context) {
+	store := prefix.NewStore(ctx.KVStore(k.storeKey), types.KeyPrefix(types.ForceSealBlockKey))
+	// #nosec G115
+	store.Set(types.BlockKey, sdk.Uint64ToBigEndian(uint64(ctx.BlockHeight())))
+}
+
+// GetForceSealBlock returns the height of the latest block that force-sealed every open round.
+func (k Keeper) GetForceSealBlock(ctx sdk.Context) (uint64, bool) {
+	store := prefix.NewStore(ctx.KVStore(k.storeKey), types.KeyPrefix(types.ForceSealBlockKey))
+	b := store.Get(types.BlockKey)
+	if b == nil {
+		return 0, false
+	}
+	return sdk.BigEndianToUint64(b), true
+}
